@@ -45,6 +45,27 @@ theorem nodup_sortedSet (l : List ℕ) : (sortedSet l).Nodup :=
 theorem length_sortedSet (l : List ℕ) : (sortedSet l).length = (dedup l).length :=
   (sortedSet_perm l).length_eq
 
+theorem dedup_of_nodup (l : List ℕ) (hnd : l.Nodup) : dedup l = l := by
+  unfold dedup
+  induction l with
+  | nil => rfl
+  | cons a l ih =>
+    rw [List.eraseDups_cons]
+    have ha : a ∉ l := (List.nodup_cons.mp hnd).1
+    have hf : l.filter (fun b => !b == a) = l := by
+      rw [List.filter_eq_self]
+      intro b hb
+      have : b ≠ a := fun h => ha (h ▸ hb)
+      simpa using this
+    rw [hf, ih (List.nodup_cons.mp hnd).2]
+
+/-- on an ascending duplicate-free list `sortedSet` is the identity (used to evaluate the model on
+concrete policies: `mergeSort` is defined by well-founded recursion and does not reduce by `decide`) -/
+theorem sortedSet_of_sorted (l : List ℕ) (hnd : l.Nodup) (hs : l.Pairwise (· ≤ ·)) : sortedSet l = l := by
+  unfold sortedSet sortNat
+  rw [dedup_of_nodup l hnd]
+  exact List.mergeSort_of_pairwise (by simpa using hs)
+
 /-- the members of `S` among a duplicate-free list containing `S` are as many as `S` has distinct members -/
 theorem length_filter_contains (hs S : List ℕ) (hnd : hs.Nodup) (hS : ∀ s ∈ S, s ∈ hs) :
     (hs.filter fun a => S.contains a).length = (dedup S).length := by
